@@ -1,9 +1,94 @@
 import Driver.Proto
+import ScrapliModel.SshCfg
 namespace Driver
-open Scrapli
+open Scrapli Scrapli.SshCfg
 
-/-- line-protocol handler for property C14 (arguments after the leading `c14` token) -/
+namespace C14
+
+def showOpt : Option Bytes → String
+  | none => "none"
+  | some b => "some:" ++ toHex b
+
+def showErr : Err → String
+  | .badOption => "badoption"
+  | .keyFile => "keyfile"
+  | .knownHostsFile => "khfile"
+
+def showMethod : AuthMethod → String
+  | .publicKey p => "pk:" ++ toHex p
+  | .password p => "pw:" ++ toHex p
+  | .keyboardInteractive p => "ki:" ++ toHex p
+
+def showAuth (l : List AuthMethod) : String :=
+  if l.isEmpty then "." else ";".intercalate (l.map showMethod)
+
+def showPolicy : HostKeyPolicy → String
+  | .insecure => "insecure"
+  | .knownHosts f => "kh:" ++ toHex f
+
+def showOutcome : Outcome → String
+  | .cfgError e => "cfgerr:" ++ showErr e
+  | .hostKeyRejected => "hostkey"
+  | .authFailed => "authfail"
+  | .established u m => "est:" ++ toHex u ++ ":" ++ showMethod m
+
+def showEff (e : Eff) : String :=
+  s!"host={showOpt e.host} port={showOpt e.port} user={showOpt e.user} strict={showOpt e.strict} " ++
+  s!"kh={showOpt e.knownHosts} cfg={showOpt e.cfg} ids={showHexList e.ids} sub={b2s e.subsystem} cmd={showHexList e.cmd}"
+
+def verdict (s : String) : Option KhVerdict :=
+  if s == "match" then some .matches else if s == "mismatch" then some .mismatch
+  else if s == "unknown" then some .unknown else if s == "revoked" then some .revoked else none
+
+end C14
+open C14
+
+/-- line-protocol handler for property C14 (arguments after the leading `c14` token)
+
+* `sys host port user pw timeoutNs strict key pass cfg kh netconf extra override keyLoads`
+  → `dom=<0|1> [pwdom=… pwfree=…] <ok bin argv | err e> | <meaning of the model argv>`
+* `parse argv` → meaning of an argv under `sshParse`
+* `std host port user pw timeoutNs strict key kh khLoads keyLoads verdict accKey accPw accKbd`
+  → `<ok addr user policy auth | err e> <outcome> <credentials offered, in order>`
+* `default` → the strict flag of `newSSHArgs` -/
 def handleC14 : List String → String
+  | ["default"] => b2s newSSHArgs.strictKey
+  | ["parse", argv] =>
+    match hexList argv with
+    | some l => showEff (sshParse l)
+    | none => "bad-op"
+  | ["sys", host, port, user, pw, tmo, strict, key, pass, cfg, kh, nc, extra, ovr, keyLoads] =>
+    match fromHex host, port.toInt?, fromHex user, fromHex pw, tmo.toInt?, fromHex key, fromHex pass,
+          fromHex cfg, fromHex kh, hexList extra, hexList ovr with
+    | some host, some port, some user, some pw, some tmo, some key, some pass, some cfg, some kh,
+      some extra, some ovr =>
+      let a : Args := { host := host, port := port, user := user, password := pw, timeoutNs := tmo }
+      let s : SSHArgs := { strictKey := s2b strict, privateKeyPath := key, privateKeyPassPhrase := pass,
+                           configFile := cfg, knownHostsFile := kh, netconf := s2b nc }
+      let t : System := { ssh := s, extra := extra, override := ovr }
+      let dom := hostOk host && ovr.isEmpty
+      match systemOpen a t (s2b keyLoads) with
+      | .error e => s!"dom={b2s dom} err {showErr e}"
+      | .ok (bin, argv) =>
+        let pwdom := pw.any fun m => markerB m a t
+        let pwfree := argv.all fun e => !isInfix pw e
+        s!"dom={b2s dom} pwdom={b2s pwdom} pwfree={b2s pwfree} ok {toHex bin} {showHexList argv} | {showEff (sshParse argv)}"
+    | _, _, _, _, _, _, _, _, _, _, _ => "bad-op"
+  | ["std", host, port, user, pw, tmo, strict, key, kh, khLoads, keyLoads, v, accKey, accPw, accKbd] =>
+    match fromHex host, port.toInt?, fromHex user, fromHex pw, tmo.toInt?, fromHex key, fromHex kh, verdict v with
+    | some host, some port, some user, some pw, some tmo, some key, some kh, some v =>
+      let a : Args := { host := host, port := port, user := user, password := pw, timeoutNs := tmo }
+      let s : SSHArgs := { strictKey := s2b strict, privateKeyPath := key, knownHostsFile := kh }
+      let acc : AuthMethod → Bool
+        | .publicKey _ => s2b accKey
+        | .password _ => s2b accPw
+        | .keyboardInteractive _ => s2b accKbd
+      let out := showOutcome (standardOpen a s (s2b khLoads) (s2b keyLoads) v acc)
+      let att := showAuth (standardAttempts a s (s2b khLoads) (s2b keyLoads) v acc)
+      match standardCfg a s (s2b khLoads) (s2b keyLoads) with
+      | .error e => s!"err {showErr e} {out} {att}"
+      | .ok c => s!"ok {toHex c.addr} {toHex c.user} {showPolicy c.policy} {showAuth c.auth} {out} {att}"
+    | _, _, _, _, _, _, _, _ => "bad-op"
   | _ => "bad-op"
 
 end Driver
